@@ -874,6 +874,16 @@ impl World {
                         batch_seen.insert((a, v), None);
                         am.set_known(v, VState::Applied);
                         merges.push((a, changes.clone(), None));
+                        if changes.is_empty() {
+                            // a complete changeset without a single live change (its rows were all
+                            // overwritten before it was announced): the node records the version like
+                            // an empty one, which persists the author's version counter
+                            let _: String = self.shadows[n].conn.query_row(
+                                "SELECT crsql_set_db_version(?, ?)",
+                                rusqlite::params![c.actor_id, v],
+                                |r| r.get(0),
+                            )?;
+                        }
                         return Ok(None);
                     }
                 }
@@ -895,6 +905,16 @@ impl World {
                     }
                     am.set_known(v, VState::Applied);
                     merges.push((a, changes.clone(), None));
+                        if changes.is_empty() {
+                            // a complete changeset without a single live change (its rows were all
+                            // overwritten before it was announced): the node records the version like
+                            // an empty one, which persists the author's version counter
+                            let _: String = self.shadows[n].conn.query_row(
+                                "SELECT crsql_set_db_version(?, ?)",
+                                rusqlite::params![c.actor_id, v],
+                                |r| r.get(0),
+                            )?;
+                        }
                     self.stats.probe("model.applied-complete");
                     return Ok(None);
                 }
